@@ -16,7 +16,7 @@
 (* value, its canonical encoding and the distinct layout variants: the     *)
 (* stimuli, with their expected outcome, replayed on the real code.        *)
 (***************************************************************************)
-EXTENDS AvroValues, SerdeModel, AvroSkip, Json, IOUtils, SequencesExt
+EXTENDS AvroValues, DeView, AvroSkip, Json, IOUtils, SequencesExt
 
 Scope   == ndJsonDeserialize(IOEnv.VERIF_SCOPE)
 NShards == atoi(IOEnv.VERIF_NSHARDS)
@@ -28,7 +28,7 @@ VARIABLE c
 MkCase(i, v) ==
     LET G   == Scope[i].nodes
         enc == Enc(G, 1, v)
-    IN  [si |-> i, sid |-> Scope[i].sid, v |-> v, enc |-> enc,
+    IN  [si |-> i, sid |-> Scope[i].sid, v |-> v, anyv |-> Erase(G, 1, v), enc |-> enc,
          lays |-> SetToSeq({EncWith(G, 1, v, L) : L \in LayoutChoices} \ {enc}),
          mal |-> SetToSeq(Mal(G, 1, v)),
          pres |-> [named |-> Canon(G, 1, v, "named"), rust |-> Canon(G, 1, v, "rust"), bare |-> Canon(G, 1, v, "bare")]]
